@@ -177,6 +177,13 @@ def _local_transfer_loops(v: FuncView, h: str, setter: str, getter: str):
     """`for X in ITER: h.<setter>(X, self.<getter>(X))` loops, also with the values collected first:
     `D = {X: self.<getter>(X) for X in ITER}; for X, M in D.items(): h.<setter>(X, M)`."""
     out = []
+    # a higher-order transfer: `transfer(self.<getter>, h.<setter>, keys)` / `consume(starmap(h.<setter>, annotate(self.<getter>, keys)))`
+    # - one statement that is handed the source's getter and the extract's setter as VALUES
+    for n in walk_no_nested(v.fi.node):
+        if isinstance(n, ast.Expr) and isinstance(n.value, ast.Call):
+            vals = [x for x in ast.walk(n.value) if isinstance(x, ast.Attribute) and isinstance(x.ctx, ast.Load) and not (isinstance(v.parent.get(id(x)), ast.Call) and v.parent.get(id(x)).func is x)]
+            if any(is_self_attr(x) and x.attr == getter for x in vals) and any(isinstance(x.value, ast.Name) and x.value.id == h and x.attr == setter for x in vals):
+                out.append(n.value)
     for n in walk_no_nested(v.fi.node):
         if not isinstance(n, ast.For):
             continue
@@ -193,6 +200,9 @@ def _local_transfer_loops(v: FuncView, h: str, setter: str, getter: str):
                     # M = [self.<getter>(X) for X in A]; for X, m in zip(A, M): h.<setter>(X, m)
                     lst = v.resolve(it.args[1]) if isinstance(it.args[1], ast.Name) else it.args[1]
                     if isinstance(lst, ast.ListComp) and len(lst.generators) == 1 and not lst.generators[0].ifs and isinstance(lst.generators[0].target, ast.Name) and norm(lst.generators[0].iter) == norm(it.args[0]) and _is_getter_of(v, lst.elt, getter, lst.generators[0].target.id):
+                        out.append(n)
+                    # for X, m in zip(A, map(self.<getter>, A)): h.<setter>(X, m)
+                    if isinstance(lst, ast.Call) and isinstance(lst.func, ast.Name) and lst.func.id == "map" and len(lst.args) == 2 and is_self_attr(lst.args[0]) and lst.args[0].attr == getter and norm(lst.args[1]) == norm(it.args[0]):
                         out.append(n)
                 # pairs produced by a helper that was handed the source's metadata table:
                 # `for node, md in _node_metadata_items(self._adj, self._node_metadata, h.get_nodes()): h.set_node_metadata(node, md)`
